@@ -60,8 +60,13 @@ where
         walked_cstore
     }
 
-    /// Add new constraint `c` while keeping the store normalized
-    pub fn push_and_normalize(&mut self, newc: Rc<dyn Constraint<U, E>>) {
+    /// Add new constraint `c` while keeping the store normalized. Returns the constraints that
+    /// were dropped from the store as redundant.
+    pub fn push_and_normalize(
+        &mut self,
+        newc: Rc<dyn Constraint<U, E>>,
+    ) -> Vec<Rc<dyn Constraint<U, E>>> {
+        let mut dropped = Vec::new();
         if let Some(tree_newc) = newc.downcast_ref::<DisequalityConstraint<U, E>>() {
             let mut normalized = HashSet::new();
             for storec in self.0.drain() {
@@ -69,6 +74,8 @@ where
                 if let Some(tree_storec) = storec.downcast_ref::<DisequalityConstraint<U, E>>() {
                     if !tree_storec.subsumes(tree_newc) && !tree_newc.subsumes(tree_storec) {
                         normalized.insert(storec);
+                    } else {
+                        dropped.push(storec);
                     }
                 } else {
                     normalized.insert(storec);
@@ -77,6 +84,7 @@ where
             self.0 = normalized;
         }
         self.insert(newc);
+        dropped
     }
 
     /// Remove redundant constraints from the store
